@@ -120,6 +120,9 @@ type Field struct {
 	// ParentIsOptionalEmbedFieldName is the Type of the embedded field.
 	// Eg MaxAge
 	ParentIsOptionalEmbedFieldName string
+	// OptionalEmbedParents lists every nullable embedded message between the generated struct and
+	// this field, outermost first (the fields above describe the outermost one)
+	OptionalEmbedParents []OptionalEmbedParent
 	// IsNullable represents field nullable state
 	IsNullable bool
 	// IsSensitive is field sensitive? (password, token)
@@ -243,6 +246,10 @@ func BuildField(c *FieldBuildContext) ([]*Field, error) {
 				f.ParentIsOptionalEmbed = true
 				f.ParentIsOptionalEmbedFullType = typeWithPackageName
 				f.ParentIsOptionalEmbedFieldName = embeddedFieldName
+				f.OptionalEmbedParents = append(
+					[]OptionalEmbedParent{{FullType: typeWithPackageName, FieldName: embeddedFieldName}},
+					f.OptionalEmbedParents...,
+				)
 				children = append(children, f)
 			}
 			return children, nil
@@ -442,4 +449,12 @@ func (f *Field) setCustomType(c *FieldBuildContext) {
 
 	// Default suffix: package and type name without / and .
 	f.Suffix = strings.ReplaceAll(strings.ReplaceAll(c.GetCustomType(), "/", ""), ".", "")
+}
+
+// OptionalEmbedParent is a nullable embedded message a field is reached through
+type OptionalEmbedParent struct {
+	// FullType is the <package>.Type of the embedded message
+	FullType string
+	// FieldName is the name of the embedded field
+	FieldName string
 }
